@@ -18,6 +18,11 @@ import Vanguard.Spec.Progress
     that message's announced length, nothing at all once it is exhausted
     (`limited_never_exceeds`, `limited_exhausted_no_pull`).
 
+  * **whole `Write` calls on the re-encoding path** (`twWrite_keeps`, by induction over the write
+    loop): whatever the backend writes - any number of messages, split anywhere, malformed or
+    over the limit, errors included - when `transformingWriter.Write` returns, everything written to
+    a streaming client so far has been flushed (`AllFlushed` is an invariant of the writer).
+
   NOT proved (partial): the same for whole runs - "after every backend write all completed
   messages are flushed" and "delivering message k consumes at most k client messages" as
   invariants of `runScript`.  For whole runs these are the executable predicates
@@ -137,6 +142,216 @@ theorem limited_never_exceeds (w : World) (st : St) (k n : Nat) :
 theorem limited_exhausted_no_pull (w : World) (st : St) (n : Nat) :
     erCurRead w st (.limited 0) n = ([], some .eof, st, .limited 0, false) := by
   simp [erCurRead]
+
+/-! ### whole `Write` calls of the transforming writer -/
+
+/-- Everything written to a streaming client is on the wire (nothing is claimed while the whole
+    response is being buffered for a client whose outcome must precede the body). -/
+def AllFlushed (st : St) : Prop := st.rw.buf = none → st.sink.flushedN.getD 0 = st.sink.items.length
+
+theorem flush_allFlushed (st : St) (rw : RW) : AllFlushed { st with sink := st.sink.flush, rw := rw } := by
+  intro _; simp [Sink.flush]
+
+theorem reportEnd_keeps (w : World) (st : St) (e : RespEnd) (h : AllFlushed st) : AllFlushed (reportEnd w st e).1 := by
+  unfold reportEnd
+  by_cases h1 : st.rw.endWritten = true
+  · simp [h1]; exact h
+  · simp only [h1, Bool.false_eq_true, if_false]
+    intro _
+    simp [Sink.flush]
+
+theorem reportError_keeps (w : World) (st : St) (err : Err) (h : AllFlushed st) : AllFlushed (reportError w st err).1 := by
+  unfold reportError
+  split
+  · split
+    · exact h
+    · exact reportEnd_keeps w st _ h
+  · exact reportEnd_keeps w st _ h
+
+
+theorem handleEndMessage_keeps (w : World) (tb : Tables) (st : St) (c : Bool) (d : Bytes) (r : Bool)
+    (h : AllFlushed st) : AllFlushed (handleEndMessage w tb st c d r).1 := by
+  unfold handleEndMessage
+  simp only
+  split
+  · split
+    · exact reportError_keeps w st _ h
+    · exact h
+  · split
+    · exact reportError_keeps w st _ h
+    · exact reportEnd_keeps w st _ h
+
+theorem flushMessage_keeps (st : St) (h : AllFlushed st) : AllFlushed (flushMessage st) := by
+  unfold flushMessage
+  split
+  · exact h
+  · intro _; simp [Sink.flush]
+
+/-- Writing to the client and flushing right after leaves nothing unflushed; writing into the
+    whole-response buffer keeps the claim vacuous; an over-limit buffer is an error that is flushed. -/
+theorem writeDown_then_flush (w : World) (st : St) (b : Bytes) (h : AllFlushed st) :
+    AllFlushed (flushMessage (writeDown w st b).1) := by
+  unfold writeDown
+  cases hb : st.rw.buf with
+  | none => intro _; simp [flushMessage, hb, Sink.flush]
+  | some buf =>
+    simp only
+    split
+    · exact flushMessage_keeps _ (reportError_keeps w st (.rpc 8) h)
+    · intro hn; simp [flushMessage] at hn
+
+
+/-- While the whole response is buffered, a write keeps the claim (it appends to the buffer, or
+    reports the size error, which flushes). -/
+theorem writeDown_buffered_keeps (w : World) (st : St) (b : Bytes) (buf : Bytes) (hb : st.rw.buf = some buf)
+    (h : AllFlushed st) : AllFlushed (writeDown w st b).1 := by
+  unfold writeDown
+  simp only [hb]
+  split
+  · exact reportError_keeps w st (.rpc 8) h
+  · intro hn; simp at hn
+
+theorem writeDown_streaming' (w : World) (st : St) (b : Bytes) (h : st.rw.buf = none) :
+    writeDown w st b = ({ st with sink := st.sink.write b }, false, false) := by
+  simp [writeDown, h]
+
+/-- A write that fails (size limit of the whole-response buffer) has reported the error. -/
+theorem writeDown_bad_keeps (w : World) (st : St) (b : Bytes) (h : AllFlushed st)
+    (hbad : ((writeDown w st b).2.1 || (writeDown w st b).2.2) = true) : AllFlushed (writeDown w st b).1 := by
+  unfold writeDown at hbad ⊢
+  cases hb : st.rw.buf with
+  | none => simp [hb] at hbad
+  | some buf =>
+    simp only [hb] at hbad ⊢
+    split
+    · exact reportError_keeps w st (.rpc 8) h
+    · rename_i hlim; simp [hlim] at hbad
+
+theorem twFlushMessage_keeps (w : World) (tb : Tables) (st : St) (t : TW) (h : AllFlushed st) :
+    AllFlushed (twFlushMessage w tb st t).1 := by
+  unfold twFlushMessage
+  simp only
+  split
+  · -- end-of-stream message
+    have := handleEndMessage_keeps w tb st t.latest.compressed (t.buffer.getD []) false h
+    split <;> exact this
+  · split
+    · exact h
+    · rename_i out _
+      cases hb : st.rw.buf with
+      | none =>
+        -- streaming client: envelope and message go to the wire and are flushed
+        cases hce : st.op.clientEnveloper with
+        | none =>
+          simp only [writeDown, hb, Option.isSome_none, Bool.false_eq_true, if_false, Bool.or_self]
+          intro _; simp [flushMessage, hb, Sink.flush]
+        | some ce =>
+          simp only
+          split
+          · simp only [Option.isSome_some, Bool.true_or, if_true]; exact h
+          · simp only [writeDown, hb, Option.isSome_none, Bool.false_eq_true, if_false, Bool.or_self]
+            intro _; simp [flushMessage, hb, Sink.flush]
+      | some buf =>
+        cases hce : st.op.clientEnveloper with
+        | none =>
+          simp only [Option.isSome_none, Bool.false_eq_true, if_false, Bool.or_self]
+          generalize hr : writeDown w st out = r
+          obtain ⟨s1, f1, p1⟩ := r
+          simp only
+          by_cases hbad : (f1 || p1) = true
+          · simp only [hbad, if_true]
+            have := writeDown_bad_keeps w st out h (by rw [hr]; exact hbad)
+            rw [hr] at this; exact this
+          · simp only [hbad, Bool.false_eq_true, if_false]
+            have := writeDown_then_flush w st out h
+            rw [hr] at this; exact this
+        | some ce =>
+          simp only
+          split
+          · simp only [Option.isSome_some, Bool.true_or, if_true]; exact h
+          · generalize hr1 : writeDown w st (ce.encode _) = r1
+            obtain ⟨s1, f1, p1⟩ := r1
+            have hs1 : AllFlushed s1 := by
+              have := writeDown_buffered_keeps w st
+                (ce.encode { compressed := t.msgCompressed && st.rw.cRespComp.isSome, length := List.length out }) buf hb h
+              rw [hr1] at this; exact this
+            simp only
+            by_cases hbad1 : ((if f1 = true then some Err.closed else none).isSome || p1) = true
+            · simp only [hbad1, if_true]; exact hs1
+            · simp only [hbad1, Bool.false_eq_true, if_false]
+              generalize hr2 : writeDown w s1 out = r2
+              obtain ⟨s2, f2, p2⟩ := r2
+              simp only
+              by_cases hbad2 : (f2 || p2) = true
+              · simp only [hbad2, if_true]
+                have := writeDown_bad_keeps w s1 out hs1 (by rw [hr2]; exact hbad2)
+                rw [hr2] at this; exact this
+              · simp only [hbad2, Bool.false_eq_true, if_false]
+                have := writeDown_then_flush w s1 out hs1
+                rw [hr2] at this; exact this
+
+
+/-- **Whole `Write` calls of the transforming writer**: whatever the backend writes - any number of
+    messages, split anywhere, well-formed or not, errors included - when the call returns everything
+    that was written to a streaming client has been flushed. -/
+theorem twLoop_keeps (w : World) (tb : Tables) : ∀ (fuel : Nat) (st : St) (t : TW) (data : Bytes),
+    AllFlushed st → AllFlushed (twLoop w tb fuel st t data).1 := by
+  intro fuel
+  induction fuel with
+  | zero => intro st t data h; simpa [twLoop] using h
+  | succ fuel ih =>
+    intro st t data h
+    unfold twLoop
+    split
+    · exact h
+    · simp only
+      split
+      · exact h
+      · split
+        · exact h
+        · split
+          · -- an envelope has been completed
+            split
+            · rename_i se f a b c d _ _
+              split
+              · exact reportError_keeps w st _ h
+              · split
+                · exact reportError_keeps w st _ h
+                · exact ih _ _ _ h
+            · exact h
+          · -- a message has been completed
+            generalize hr : twFlushMessage w tb st _ = r
+            obtain ⟨s1, t1, err, p⟩ := r
+            have key := fun tt => twFlushMessage_keeps w tb st tt h
+            have hs1 : AllFlushed s1 := by
+              have e : s1 = (s1, t1, err, p).1 := rfl
+              rw [e, ← hr]; exact key _
+            simp only
+            split
+            · exact hs1
+            · split
+              · exact reportError_keeps w s1 _ hs1
+              · split
+                · exact hs1
+                · exact ih _ _ _ hs1
+
+theorem twWrite_keeps (w : World) (tb : Tables) (st : St) (t : TW) (data : Bytes) (h : AllFlushed st) :
+    AllFlushed (twWrite w tb st t data).1 := by
+  unfold twWrite
+  split
+  · exact h
+  · simp only
+    generalize (if t.buffer.isNone = true then twReset st t else t) = t'
+    split
+    · split
+      · exact reportError_keeps w st _ h
+      · exact h
+    · exact twLoop_keeps w tb _ st _ data h
+
+
+/-- The claim is not vacuous: it holds when the backend starts writing (nothing written, nothing
+    flushed), and it fails for a state with an unflushed item. -/
+example (st : St) (h : st.sink = {}) : AllFlushed st := by intro _; simp [h]
 
 /-! ### the specification predicates are not vacuous -/
 
